@@ -401,6 +401,9 @@ func (ev *Env) selectField(x Val, name string) Val {
 			fld, ok = obj.(*types.Var)
 		}
 		if !ok || fld == nil {
+			if alt := fieldAlias(x.Typ, name); alt != "" {
+				return ev.selectField(x, alt)
+			}
 			efail("no field %s in %s", name, x.Typ)
 		}
 	}
@@ -454,6 +457,17 @@ func (ev *Env) addrOf(e *Expr) Val {
 			if n, isN := pt.Elem().(*types.Named); isN {
 				obj, path, _ = types.LookupFieldOrMethod(base.Typ, true, n.Obj().Pkg(), e.S)
 				fld, ok = obj.(*types.Var)
+			}
+			if !ok {
+				if alt := fieldAlias(base.Typ, e.S); alt != "" {
+					obj, path, _ = types.LookupFieldOrMethod(base.Typ, true, ev.pkg, alt)
+					if fld, ok = obj.(*types.Var); !ok {
+						if n, isN := pt.Elem().(*types.Named); isN {
+							obj, path, _ = types.LookupFieldOrMethod(base.Typ, true, n.Obj().Pkg(), alt)
+							fld, ok = obj.(*types.Var)
+						}
+					}
+				}
 			}
 			if !ok {
 				efail("no field %s", e.S)
@@ -1311,4 +1325,47 @@ func (ev *Env) callSpec(sf *SpecFn, args []Val) Val {
 	}
 	v, _ := ev.c.build(rt, []Term{t})
 	return v
+}
+
+// staleRef: the clause names a local, call or struct field that does not exist
+// in the code as it is now. Such a clause cannot be discharged: where it is
+// to be proved it is a failing obligation, where it would be assumed it is
+// skipped.
+func staleRef(err error) bool {
+	s := err.Error()
+	return strings.Contains(s, "unknown identifier") || strings.Contains(s, "no field ")
+}
+
+// fieldAlias: the field of struct type t that was called `name` on the
+// reference tree, if it has merely been renamed since: the struct still has
+// the same number of fields, the field at that position has the same type, and
+// its new name was not a field of the struct before.
+func fieldAlias(t types.Type, name string) string {
+	n, ok := derefType(t).(*types.Named)
+	if !ok || n.Obj().Pkg() == nil || lockStructs == nil {
+		return ""
+	}
+	st, ok := n.Underlying().(*types.Struct)
+	if !ok {
+		return ""
+	}
+	old := lockStructs[n.Obj().Pkg().Path()+"."+n.Obj().Name()]
+	if len(old) != st.NumFields() {
+		return ""
+	}
+	was := map[string]bool{}
+	for _, f := range old {
+		was[strings.SplitN(f, " ", 2)[0]] = true
+	}
+	for i, f := range old {
+		parts := strings.SplitN(f, " ", 2)
+		if parts[0] != name {
+			continue
+		}
+		nf := st.Field(i)
+		if !was[nf.Name()] && types.TypeString(nf.Type(), nil) == parts[1] {
+			return nf.Name()
+		}
+	}
+	return ""
 }
